@@ -135,30 +135,49 @@ def calcsAtF (inp : RunInput) (tr : List Ev) : Nat → List Name → List Name
   | 0, cs => cs
   | fuel + 1, cs => calcsAtF inp tr fuel (addNew cs (cs.flatMap fun c => (resAt inp tr c).calcs))
 
-def closeOnceF (inp : RunInput) (nTasks : Nat) (tr : List Ev) (cl : List Name) : List Name :=
-  cl.foldl (fun acc t =>
-    addNew acc (inp.taskDep t ++ calcsAtF inp tr nTasks (inp.calcDep t) ++
-      ((calcsAtF inp tr nTasks (inp.calcDep t)).flatMap fun c => (resAt inp tr c).tasks ++ (resAt inp tr c).files) ++
-      (if ranFirst inp nTasks tr t then inp.setup t else []))) cl
+/-- `calcsAtF`, stopping as soon as a round adds nothing (equal to it: `Proofs/RunMonFast.lean`) -/
+def calcsAtQ (inp : RunInput) (tr : List Ev) : Nat → List Name → List Name
+  | 0, cs => cs
+  | fuel + 1, cs =>
+    if (addNew cs (cs.flatMap fun c => (resAt inp tr c).calcs)).length = cs.length then cs
+    else calcsAtQ inp tr fuel (addNew cs (cs.flatMap fun c => (resAt inp tr c).calcs))
 
-def closureIterF (inp : RunInput) (nTasks : Nat) (tr : List Ev) : Nat → List Name → List Name
-  | 0, cl => cl
-  | fuel + 1, cl => closureIterF inp nTasks tr fuel (closeOnceF inp nTasks tr cl)
+/-- the dependency edges of `t` that put tasks into the closure of this run -/
+def closureSucc (inp : RunInput) (nTasks : Nat) (tr : List Ev) (t : Name) : List Name :=
+  inp.taskDep t ++ calcsAtQ inp tr nTasks (inp.calcDep t) ++
+    ((calcsAtQ inp tr nTasks (inp.calcDep t)).flatMap fun c => (resAt inp tr c).tasks ++ (resAt inp tr c).files) ++
+    (if ranFirst inp nTasks tr t then inp.setup t else [])
 
-/-- the closure of the selection as far as this run determined it, deliveries of failed calc tasks included -/
+/-- work-list closure: every member is expanded once (so that runs with hundreds of tasks can be judged) -/
+def closureGo (succ : Name → List Name) : Nat → List Name → List Name → List Name
+  | 0, _, acc => acc
+  | _ + 1, [], acc => acc
+  | fuel + 1, t :: todo, acc =>
+    closureGo succ fuel (todo ++ ((addNew [] (succ t)).filter fun d => d ∉ acc))
+      (acc ++ ((addNew [] (succ t)).filter fun d => d ∉ acc))
+
+/-- the closure of the selection as far as this run determined it, deliveries of failed calc tasks included (a set:
+    the order of the list means nothing) -/
 def closureOfF (inp : RunInput) (nTasks : Nat) (tr : List Ev) : List Name :=
-  closureIterF inp nTasks tr (nTasks + 1) (addNew [] inp.sel)
+  closureGo (closureSucc inp nTasks tr) (nTasks + inp.sel.length + 1) (addNew [] inp.sel) (addNew [] inp.sel)
+
+/-- C02 "nothing outside the closure is touched", given the closure -/
+def insideClosureOn (clo : List Name) (nTasks : Nat) (tr : List Ev) : Bool :=
+  (List.range nTasks).all fun t => tr.any (Ev.mentions t) → t ∈ clo
 
 def monC02InsideClosure (inp : RunInput) (nTasks : Nat) (tr : List Ev) : Bool :=
-  (List.range nTasks).all fun t => tr.any (Ev.mentions t) → t ∈ closureOfF inp nTasks tr
+  insideClosureOn (closureOfF inp nTasks tr) nTasks tr
 
 /-- the run was not cut short: finished normally, and no failure stopped it -/
 def runComplete (inp : RunInput) (tr : List Ev) (exit : Nat) : Bool :=
   exit ≤ 2 && tr.getLast? == some Ev.complete &&
   (inp.continue_ || !(tr.any fun e => match e with | .failure _ _ => true | _ => false))
 
+/-- C02 "every member of the closure is processed exactly once in a complete run", given the closure -/
+def allProcessedOn (clo : List Name) (inp : RunInput) (tr : List Ev) (exit : Nat) : Bool :=
+  !runComplete inp tr exit || clo.all fun t => (tr.filter (Ev.isTerminalOf t)).length == 1
+
 def monC02AllProcessed (inp : RunInput) (nTasks : Nat) (tr : List Ev) (exit : Nat) : Bool :=
-  !runComplete inp tr exit ||
-  (closureOfF inp nTasks tr).all fun t => (tr.filter (Ev.isTerminalOf t)).length == 1
+  allProcessedOn (closureOfF inp nTasks tr) inp tr exit
 
 end DoitModel.Run
